@@ -1,6 +1,8 @@
 """C09 - cell coordinates and cell ids are in one-to-one correspondence."""
 import itertools
 
+import numpy as np
+
 from hypothesis import strategies as st
 
 from ECAgent.Core import Model
@@ -9,8 +11,8 @@ from vf.engine import Violation, InvalidCase
 from vf.fixtures import check, wone_of
 
 PROPERTY = "C09"
-BUDGET = {"quick": 48, "thorough": 40}
-RULE = ("One case = one grid shape (DiscreteWorld(w,h,d) with extents 0 or >= 1 in every position, LineWorld(w), "
+BUDGET = {"quick": 150, "thorough": 450}
+RULE = ("One case = one grid shape, in half of the random cases with a second grid world of another shape created afterwards and alive during the lookups (DiscreteWorld(w,h,d) with extents 0 or >= 1 in every position, LineWorld(w), "
         "GridWorld(w,h)); for the shape EVERY in-range coordinate triple is looked up (id formula as documented: "
         "discrete_grid_pos_to_id(x, y, world.width, z, world.height); range, injectivity, position table round-trip, "
         "get_cell row incl. a distinguishing cell component 10000z+100y+x) and every just-outside coordinate on both "
@@ -18,6 +20,9 @@ RULE = ("One case = one grid shape (DiscreteWorld(w,h,d) with extents 0 or >= 1 
 EXHAUSTIVE_DOMAIN = ("all (w,h,d) in {0..3}^3 (thorough {0..5}^3) as DiscreteWorld, LineWorld(1..4|6), GridWorld(1..4|6 squared); "
                      "all in-range triples and all just-outside triples of each")
 ASSUMPTIONS = ["a zero extent denotes the single layer 0 (the convention the world constructor uses for its position table)"]
+
+
+NPINT = (np.int64, np.int32, np.intp)
 
 
 def mark(pos, cells):
@@ -46,10 +51,25 @@ def build(case):
 
 def run_case(case):
     world, (w, h, d) = build(case)
+    other = None
+    if case.get("later"):
+        # a second grid world of another shape is created AFTER the world under test and stays alive: worlds are independent
+        other, oshape = build(dict(case["later"]))
+        last = tuple(max(e, 1) - 1 for e in oshape)
+        check(tuple(other.get_cell(*last)["pos"]) == last, "get-cell-wrong-row", f"{case}: companion world: get_cell{last} returned another cell")
     ew, eh, ed = max(w, 1), max(h, 1), max(d, 1)
     ncells = ew * eh * ed
     check(len(world.cells) == ncells, "cell-count", f"{case}: {len(world.cells)} rows, expected {ncells}")
-    world.add_cell_component("mark", mark)
+    if (w + h + d) % 2:
+        # the marks REPLACE an earlier component of the same name (a layer that is regenerated): lookups must show the new values
+        world.add_cell_component("mark", lambda pos, cells: -1)
+        try:
+            world.add_cell_component("mark", mark)
+        except Exception:                   # a world may refuse a second component under a live name
+            world.remove_cell_component("mark")
+            world.add_cell_component("mark", mark)
+    else:
+        world.add_cell_component("mark", mark)
     pos_col = list(world.cells["pos"])
     seen = {}
     kind = case["kind"]
@@ -71,9 +91,12 @@ def run_case(case):
                 if kind == "grid" or d == 0:
                     if z == 0:
                         calls.append((x, y))
+                # coordinates read back from the cell table / produced by numpy are numpy integers: integers all the same
+                calls.append(tuple(NPINT[(x + y + z) % len(NPINT)](v) for v in (x, y, z)))
+                calls.append({"x": x, "y": y, "z": z} if (x + y) % 2 else {"z": z, "x": x, "y": y})     # by keyword, in either order
                 for args in calls:
                     try:
-                        row = world.get_cell(*args)
+                        row = world.get_cell(**args) if isinstance(args, dict) else world.get_cell(*args)
                     except IndexError as e:
                         raise Violation("get-cell-rejects-inrange", f"{case}: get_cell{args} raised IndexError: {e}")
                     if tuple(row["pos"]) != (x, y, z) or row["mark"] != mark((x, y, z), None):
@@ -94,7 +117,8 @@ def run_case(case):
     outside.update([(-1, -1, -1), (ew, eh, ed)])
     # less than one cell outside (a coordinate need not be integral to be outside the grid)
     outside.update([(-0.5, 0, 0), (0, -0.5, 0), (0, 0, -0.5), (-0.001, 0, 0), (0, 0, -0.999), (ew + 0.5, 0, 0), (0, eh + 0.25, 0), (0, 0, ed + 0.5)])
-    for args in sorted(outside):
+    outside.update([(np.int64(-1), 0, 0), (np.int64(ew), np.int64(0), np.int64(0)), (0, np.int32(eh), 0), (0, 0, np.int64(ed))])
+    for args in sorted(outside, key=lambda a: tuple(float(v) for v in a)):
         try:
             row = world.get_cell(*args)
         except IndexError:
@@ -102,7 +126,10 @@ def run_case(case):
         except Exception as e:
             raise Violation("outside-wrong-error", f"{case}: get_cell{args} raised {type(e).__name__}: {e}")
         raise Violation("outside-accepted", f"{case}: get_cell{args} returned row {row.name} instead of raising IndexError")
-    labels = (["wrap_env"] if case.get("wrap") else []) + [f"zero-axes-{''.join('0' if e == 0 else 'n' for e in (w, h, d))}", "cubic" if len({ew, eh, ed}) == 1 else "non-cubic", kind]
+    if other is not None:
+        last = tuple(max(e, 1) - 1 for e in oshape)
+        check(tuple(other.get_cell(*last)["pos"]) == last, "get-cell-wrong-row", f"{case}: companion world (after the lookups): get_cell{last} returned another cell")
+    labels = (["wrap_env"] if case.get("wrap") else []) + (["second-world-alive"] if other is not None else []) + [f"zero-axes-{''.join('0' if e == 0 else 'n' for e in (w, h, d))}", "cubic" if len({ew, eh, ed}) == 1 else "non-cubic", kind]
     return {"nontrivial": ncells >= 2, "labels": labels}
 
 
@@ -111,7 +138,8 @@ def strategy(tier):
     disc = st.builds(lambda w, h, d, wr: {"kind": "discrete", "w": w, "h": h, "d": d, "wrap": wr}, ext(12), ext(10), ext(8), st.booleans())
     line = st.builds(lambda w, wr: {"kind": "line", "w": w, "wrap": wr}, st.integers(1, 60), st.booleans())
     grid = st.builds(lambda w, h, wr: {"kind": "grid", "w": w, "h": h, "wrap": wr}, st.integers(1, 14), st.integers(1, 12), st.booleans())
-    return wone_of(disc, disc, disc, line, grid)
+    plain = wone_of(disc, disc, disc, line, grid)
+    return wone_of(plain, st.builds(lambda a, b: dict(a, later=b), plain, plain))
 
 
 def exhaustive(tier):
@@ -120,6 +148,8 @@ def exhaustive(tier):
     for wrap in (False, True):
         for w, h, d in itertools.product(range(n + 1), repeat=3):
             yield {"kind": "discrete", "w": w, "h": h, "d": d, "wrap": wrap}
+            if not wrap:
+                yield {"kind": "discrete", "w": w, "h": h, "d": d, "wrap": wrap, "later": {"kind": "discrete", "w": h + 2, "h": d + 1, "d": w + 1}}
         for w in range(1, m + 1):
             yield {"kind": "line", "w": w, "wrap": wrap}
         for w, h in itertools.product(range(1, m + 1), repeat=2):
